@@ -2,8 +2,9 @@
    Property theorems only; every proof is [exact <lemma>].
 
    Model (model/C04.v): [repr] = vals.Repr with the list / map builders, their
-   indentation and the sort of map entries by vals.CmpTotal ([cmp_total4], an
-   insertion sort as sort.Slice runs it for at most 12 entries); [read_val] =
+   indentation and the sort of map entries by vals.CmpTotal with ties broken on
+   the key texts ([key_lt]; an insertion sort as sort.Slice runs it for at most
+   12 entries); [read_val] =
    the parser + evaluator on exactly the expression language repr prints (list
    and map literals, white space, (num X), $nil $true $false, string words
    through C03's reader; anything else = ROther).  Maps are association lists
@@ -21,7 +22,8 @@
             rune that cannot start a primary in that context (white space,
             closing bracket, = after a map key ...).
    rdepth v: the fuel the reader needs (nesting depth plus widths). *)
-From verif Require Import lib.Base lib.Utf8 model.C03 proofs.C03_proofs model.C08_Value model.C04
+From verif Require Import lib.Base lib.Utf8 model.C03 proofs.C03_proofs model.C08_Value
+  proofs.C08_Value_proofs proofs.C09_proofs model.C04
   proofs.C04_proofs proofs.C04_text proofs.C04_roundtrip proofs.C04_sem proofs.C04_order proofs.C04_fuel proofs.C04_main.
 From verif Require model.C05 proofs.C05_float_proofs.
 From Coq Require Import Permutation.
@@ -48,15 +50,15 @@ Theorem C04_repr_reads_back : forall is_print pf fmtF fmtE rk,
   C05_float_proofs.contract_S pf fmtF fmtE ->
   forall v, okv v = true ->
   forall ind ctx t fuel, (rdepth v <= fuel)%nat -> term_ok is_print ctx t ->
-  read_val is_print pf fuel ctx (repr is_print fmtF fmtE rk v ind ++ t) = ROk (norm pf rk v) t.
+  read_val is_print pf fuel ctx (repr is_print fmtF fmtE rk v ind ++ t) = ROk (norm is_print pf fmtF fmtE rk v ind) t.
 Proof. exact repr_reads_back. Qed.
 Print Assumptions C04_repr_reads_back.
 
 (* ... and that value is eq to the original (NaN by kind), for maps of any size *)
-Theorem C04_norm_is_eq : forall pf rk,
+Theorem C04_norm_is_eq : forall is_print pf fmtF fmtE rk,
   (exists b', pf C05.sNaN = Some b' /\ C05.is_nan b' = true) ->
-  forall v, okv v = true -> wfv v ->
-  wfv (norm pf rk v) /\ eqn v (norm pf rk v) = true.
+  forall v, okv v = true -> wfv v -> forall ind,
+  wfv (norm is_print pf fmtF fmtE rk v ind) /\ eqn v (norm is_print pf fmtF fmtE rk v ind) = true.
 Proof. exact norm_good. Qed.
 Print Assumptions C04_norm_is_eq.
 
@@ -65,7 +67,7 @@ Print Assumptions C04_norm_is_eq.
 Theorem C04_repr_single_expression : forall is_print pf fmtF fmtE rk,
   C05_float_proofs.contract_S pf fmtF fmtE ->
   forall v, okv v = true -> forall ind fuel, (rdepth v <= fuel)%nat ->
-  read_val is_print pf fuel CNormal (repr is_print fmtF fmtE rk v ind ++ []) = ROk (norm pf rk v) [].
+  read_val is_print pf fuel CNormal (repr is_print fmtF fmtE rk v ind ++ []) = ROk (norm is_print pf fmtF fmtE rk v ind) [].
 Proof. exact repr_single_expression. Qed.
 Print Assumptions C04_repr_single_expression.
 
@@ -96,67 +98,101 @@ Theorem C04_repr_keeps_exactness : forall is_print pf fmtF fmtE rk,
 Proof. exact repr_keeps_exactness. Qed.
 Print Assumptions C04_repr_keeps_exactness.
 
-(* THE PROPERTY, part 2 — FULL STATEMENT:
-     forall entries es, every insertion order of es gives a map with the same
-     printed text:  Permutation m1 m2 -> repr (VMap m1) ind = repr (VMap m2) ind
-     for the iteration orders m1, m2 the hash map produces.
-   It is FALSE of the faithful model and of the code.  The two insertion orders
-   of the entries (num 0)=x, (num 0.0)=y, pushed through the trie model of
-   pkg/persistent/hashmap (model/C07.v) with vals.Hash and vals.Equal, give two
-   maps that are Equal and print differently (the keys tie under CmpTotal and
-   collide in all 32 hash bits, so they sit in one collision node in insertion
-   order and the sort leaves tied entries where they were): *)
-Theorem C04_repr_order_canonical_refuted :
-  exists es a b, map_of es = Some a /\ map_of (rev es) = Some b
-    /\ wfb a = true /\ wfb b = true /\ equal a b = true /\ repr0 a <> repr0 b.
-Proof. exact repr_order_refuted_w. Qed.
-Print Assumptions C04_repr_order_canonical_refuted.
-
-(* the same for the other planted witnesses; a tie without a hash collision
-   ((num 1) and (num 1.0)) is printed in one order *)
-Theorem C04_order_witnesses :
-  order_matters [(w_int0, VStr [120]); (w_flt0, VStr [121])] = true
-  /\ order_matters [(w_int, VStr [120]); (w_flt, VStr [121])] = true
-  /\ order_matters [(w_mapA, VStr [120]); (w_mapB, VStr [121])] = true
-  /\ order_matters [(w_lstA, VStr [120]); (w_lstB, VStr [121])] = true
-  /\ order_matters [(VInt 1, VStr [120]); (VFloat 4607182418800017408, VStr [121])] = false.
-Proof. exact order_matters_all. Qed.
-Print Assumptions C04_order_witnesses.
-
-(* the pairs the generator plants do tie under CmpTotal, are not Equal, and have
-   the same 32-bit Hash *)
-Theorem C04_planted_pairs_tie_and_collide :
-  tie_collide w_int0 w_flt0 = true /\ tie_collide w_int w_flt = true
-  /\ tie_collide w_mapA w_mapB = true /\ tie_collide w_lstA w_lstB = true.
-Proof. exact planted_pairs_tie_and_collide. Qed.
-Print Assumptions C04_planted_pairs_tie_and_collide.
-
-(* ... and it holds whenever no two entries tie: if CmpTotal is a strict linear
-   order on the keys present (StrictKeys: no two different entries compare
-   equal; greater flips to less; less is asymmetric and transitive), the text
-   is the same for every order in which the entries come out of the hash map,
-   for maps of every size, every indent. *)
-Theorem C04_repr_order_canonical_partial : forall is_print fmtF fmtE rk m1 m2 ind,
-  Permutation m1 m2 -> StrictKeys rk m1 ->
+(* THE PROPERTY, part 2 (reprMap sorts by CmpTotal and breaks ties on the key
+   texts): for every map of the domain on whose keys CmpTotal is antisymmetric
+   and transitive (KeysOrdered), every order in which the hash map yields the
+   entries gives the same text — any size, any indent.  That tying keys of the
+   domain never share a text is not assumed: it follows from the round trip
+   (equal texts read back to one value, which is eq to both keys). *)
+Theorem C04_repr_order_canonical : forall is_print pf fmtF fmtE rk,
+  C05_float_proofs.contract_S pf fmtF fmtE ->
+  forall m1 m2 ind, okv (VMap m1) = true -> wfv (VMap m1) -> KeysOrdered rk m1 ->
+  Permutation m1 m2 ->
   repr is_print fmtF fmtE rk (VMap m1) ind = repr is_print fmtF fmtE rk (VMap m2) ind.
-Proof. exact repr_order_canonical_partial. Qed.
-Print Assumptions C04_repr_order_canonical_partial.
+Proof. exact repr_order_canonical. Qed.
+Print Assumptions C04_repr_order_canonical.
 
-(* ... and through nesting: repr is compositional, so a map whose entries come
-   out in another order AND whose values are themselves values that print alike
-   (e.g. hold maps rebuilt in other orders, recursively) prints alike *)
-Theorem C04_repr_order_canonical_nested_partial : forall is_print fmtF fmtE rk m m'' m',
-  Permutation m m'' -> StrictKeys rk m ->
+(* KeysOrdered holds (C09) whenever the numbers inside the keys are all exact,
+   or all inexact: then nothing is assumed about the comparison.  This covers
+   every former witness: keys that are maps, lists of maps, strings ... *)
+Theorem C04_repr_order_canonical_exact : forall is_print pf fmtF fmtE rk,
+  C05_float_proofs.contract_S pf fmtF fmtE ->
+  forall m1 m2 ind, okv (VMap m1) = true -> wfv (VMap m1) -> wfb (VMap m1) = true -> injective rk ->
+  (forall e, In e m1 -> nums_all is_exact (fst e) = true) -> Permutation m1 m2 ->
+  repr is_print fmtF fmtE rk (VMap m1) ind = repr is_print fmtF fmtE rk (VMap m2) ind.
+Proof. exact repr_order_canonical_exact. Qed.
+Print Assumptions C04_repr_order_canonical_exact.
+
+Theorem C04_repr_order_canonical_inexact : forall is_print pf fmtF fmtE rk,
+  C05_float_proofs.contract_S pf fmtF fmtE ->
+  forall m1 m2 ind, okv (VMap m1) = true -> wfv (VMap m1) -> wfb (VMap m1) = true -> injective rk ->
+  (forall e, In e m1 -> nums_all is_float (fst e) = true) -> Permutation m1 m2 ->
+  repr is_print fmtF fmtE rk (VMap m1) ind = repr is_print fmtF fmtE rk (VMap m2) ind.
+Proof. exact repr_order_canonical_inexact. Qed.
+Print Assumptions C04_repr_order_canonical_inexact.
+
+(* through nesting: repr is compositional, so a map whose entries come out in
+   another order AND whose values print alike (recursively: hold maps rebuilt in
+   other orders) prints alike *)
+Theorem C04_repr_order_canonical_nested : forall is_print pf fmtF fmtE rk,
+  C05_float_proofs.contract_S pf fmtF fmtE ->
+  forall m m'' m', okv (VMap m) = true -> wfv (VMap m) -> KeysOrdered rk m -> Permutation m m'' ->
   Forall2 (fun e e' => fst e = fst e' /\ SameText is_print fmtF fmtE rk (snd e) (snd e')) m'' m' ->
   SameText is_print fmtF fmtE rk (VMap m) (VMap m').
-Proof. exact repr_order_canonical_nested_partial. Qed.
-Print Assumptions C04_repr_order_canonical_nested_partial.
+Proof. exact repr_order_canonical_nested. Qed.
+Print Assumptions C04_repr_order_canonical_nested.
 
 Theorem C04_same_text_list : forall is_print fmtF fmtE rk s s' l l',
   Forall2 (SameText is_print fmtF fmtE rk) l l' ->
   SameText is_print fmtF fmtE rk (VList s l) (VList s' l').
 Proof. exact same_text_list. Qed.
 Print Assumptions C04_same_text_list.
+
+(* values of the domain that print alike are eq *)
+Theorem C04_same_text_is_eq : forall is_print pf fmtF fmtE rk,
+  C05_float_proofs.contract_S pf fmtF fmtE ->
+  forall a b ind, okv a = true -> wfv a -> okv b = true -> wfv b ->
+  repr is_print fmtF fmtE rk a ind = repr is_print fmtF fmtE rk b ind -> eqn a b = true.
+Proof. exact same_text_eqn. Qed.
+Print Assumptions C04_same_text_is_eq.
+
+(* the witnesses of the repaired defect (two keys that tie under CmpTotal and
+   collide in all 32 hash bits) now print in one order, whatever the insertion
+   order, through the trie model of pkg/persistent/hashmap ... *)
+Theorem C04_old_witnesses_canonical :
+  order_matters [(w_int0, VStr [120]); (w_flt0, VStr [121])] = false
+  /\ order_matters [(w_int, VStr [120]); (w_flt, VStr [121])] = false
+  /\ order_matters [(w_mapA, VStr [120]); (w_mapB, VStr [121])] = false
+  /\ order_matters [(w_lstA, VStr [120]); (w_lstB, VStr [121])] = false.
+Proof. exact old_witnesses_canonical. Qed.
+Print Assumptions C04_old_witnesses_canonical.
+
+(* ... and the pairs the generator plants do tie, are not Equal and hash alike *)
+Theorem C04_planted_pairs_tie_and_collide :
+  tie_collide w_int0 w_flt0 = true /\ tie_collide w_int w_flt = true
+  /\ tie_collide w_mapA w_mapB = true /\ tie_collide w_lstA w_lstB = true
+  /\ tie_collide w_z w_f = true.
+Proof. exact planted_pairs_tie_and_collide. Qed.
+Print Assumptions C04_planted_pairs_tie_and_collide.
+
+(* FULL STATEMENT: the same for ALL maps of the domain, without KeysOrdered:
+     forall m1 m2 ind, okv (VMap m1) -> wfv (VMap m1) -> Permutation m1 m2 ->
+       repr (VMap m1) ind = repr (VMap m2) ind.
+   It is still FALSE of the faithful model and of the repaired code: CmpTotal is
+   not transitive across exact and inexact numbers (C09), and the tie-break
+   makes the comparison cyclic on  c = -9007233084598711,  f = -9007233084598712.0,
+   z = -9007233084598713  (c < f < z by the texts, both ties; z < c by value).
+   z and f collide in all 32 hash bits, so through the trie model the two
+   insertion orders c,z,f and c,f,z give two Equal maps that print differently. *)
+Theorem C04_repr_order_canonical_refuted :
+  exists es1 es2 a b, Permutation es1 es2 /\ map_of es1 = Some a /\ map_of es2 = Some b
+    /\ wfb a = true /\ wfb b = true /\ equal a b = true /\ repr0 a <> repr0 b.
+Proof. exact repr_order_refuted_w. Qed.
+Print Assumptions C04_repr_order_canonical_refuted.
+
+Theorem C04_cyclic_triple : lt0 w_c w_f = true /\ lt0 w_f w_z = true /\ lt0 w_z w_c = true.
+Proof. exact cyclic_triple. Qed.
+Print Assumptions C04_cyclic_triple.
 
 (* the sort itself: one result for all permutations of the input under a strict
    linear order on the elements present *)
@@ -176,10 +212,10 @@ Proof. exact check_C04_sound. Qed.
 Print Assumptions C04_oracle_sound.
 
 (* ... and what the model predicts for the implementation passes it *)
-Theorem C04_model_passes_oracle : forall pf fmtF fmtE rk,
+Theorem C04_model_passes_oracle : forall is_print pf fmtF fmtE rk,
   C05_float_proofs.contract_S pf fmtF fmtE ->
-  forall v text, okv v = true -> wfv v ->
-  check_C04 v resValue (norm pf rk v) true text [] = true.
+  forall v ind text, okv v = true -> wfv v ->
+  check_C04 v resValue (norm is_print pf fmtF fmtE rk v ind) true text [] = true.
 Proof. exact model_passes_oracle. Qed.
 Print Assumptions C04_model_passes_oracle.
 
